@@ -220,12 +220,12 @@ func C18(r *core.Run) {
 		t := core.Tree{
 			"outer/regex-assembly/123456.ra": "outerroot\n", "outer/regex-assembly/include/": "", "outer/rules/": "",
 			"outer/a/b/regex-assembly/123456.ra": "innerroot\n", "outer/a/b/c/d/e/": "", "outer/a/x/y/z/": "", "outer/p/q/r/s/": "",
-			"sibling/m/n/": "", "outer/a/b/regex-assembly/include/deep/": "",
+			"sibling/m/n/": "", "outer/a/b/regex-assembly/include/deep/": "", "outer/with blank/sub dir/": "", "outer/a/b/ünï/": "",
 		}
 		return t
 	}
 	starts := []string{"outer", "outer/a", "outer/a/b", "outer/a/b/c", "outer/a/b/c/d", "outer/a/b/c/d/e", "outer/a/x", "outer/a/x/y/z", "outer/p", "outer/p/q/r/s",
-		"outer/regex-assembly", "outer/regex-assembly/include", "outer/rules", "outer/a/b/regex-assembly/include/deep", "sibling", "sibling/m/n", "."}
+		"outer/regex-assembly", "outer/regex-assembly/include", "outer/rules", "outer/with blank/sub dir", "outer/a/b/ünï", "outer/a/b/regex-assembly/include/deep", "sibling", "sibling/m/n", "."}
 	nearest := func(sb, start string) string {
 		cur := filepath.Clean(filepath.Join(sb, start))
 		for {
